@@ -130,7 +130,7 @@ fn reaches_gap(v: &V, parts: &[Part], segs: &[&str]) -> bool {
             Some(Part::Star) => matches!(v, V::List(l) if l.is_empty()) || matches!(v, V::Map(m) if m.is_empty()),
             Some(Part::AllIdx) => matches!(v, V::List(l) if l.is_empty()),
             // a filter on something that cannot be filtered
-            Some(Part::Filter(_)) | Some(Part::CapFilter(..)) | Some(Part::KeysFilter { .. }) => v.is_scalar(),
+            Some(Part::Filter(_)) | Some(Part::CapFilter(..)) | Some(Part::KeysFilter { .. }) | Some(Part::KeysFilterVar { .. }) => v.is_scalar(),
             Some(Part::VarKey(_)) => true,
         } || {
             // wildcards and filters may also consume nothing (single value in place of a list)
@@ -155,7 +155,7 @@ fn reaches_gap(v: &V, parts: &[Part], segs: &[&str]) -> bool {
         Part::Key(k) => segs[0] == k && step(segs[0]).map_or(false, |n| reaches_gap(n, rest, &segs[1..])),
         Part::Idx(i) => segs[0].parse::<i64>().ok() == Some((*i as i64).abs()) && step(segs[0]).map_or(false, |n| reaches_gap(n, rest, &segs[1..])),
         Part::VarKey(_) => step(segs[0]).map_or(false, |n| reaches_gap(n, rest, &segs[1..])),
-        Part::Star | Part::AllIdx | Part::Filter(_) | Part::CapFilter(..) | Part::KeysFilter { .. } => {
+        Part::Star | Part::AllIdx | Part::Filter(_) | Part::CapFilter(..) | Part::KeysFilter { .. } | Part::KeysFilterVar { .. } => {
             // consume one segment (element / value) or none
             step(segs[0]).map_or(false, |n| reaches_gap(n, rest, &segs[1..])) || reaches_gap(v, rest, segs)
         }
@@ -363,7 +363,7 @@ fn random_case(u: &mut Choices, sz: Size) -> CaseResult {
     // function-free, and no map-key filters: a key selected by `[ keys == .. ]` is reported with
     // the path of its map, it is not a value of the document (outside the statement)
     fn strip_q(q: &mut Query) {
-        q.parts.retain(|p| !matches!(p, Part::KeysFilter { .. }));
+        q.parts.retain(|p| !matches!(p, Part::KeysFilter { .. } | Part::KeysFilterVar { .. }));
     }
     fn strip_lets(ls: &mut Vec<Let>) {
         for l in ls.iter_mut() {
